@@ -67,7 +67,7 @@ RESERVED_WORDS = (
     set(dir(builtins))
     | {"self", "true", "false", "datetime"}
     # Names which the generated model classes use themselves (locals of from_dict/to_dict, methods, imports)
-    | {"d", "cls", "field_dict", "additional_properties", "from_dict", "to_dict", "cast", "isoparse"}
+    | {"d", "cls", "field_dict", "additional_properties", "additional_keys", "from_dict", "to_dict", "cast", "isoparse"}
 ) - {
     "id",
 }
